@@ -61,6 +61,9 @@ type Step struct {
 type Case struct {
 	VRFs  []int  `json:"vrfs"`
 	Steps []Step `json:"steps"`
+	// Late: a network instance created at run time by an "addni" step (nothing names it before that step, so for the
+	// model it may as well exist from the start: it is printed among the VRFs and the step itself is not)
+	Late int `json:"late,omitempty"`
 }
 
 func niName(c int) string {
@@ -374,7 +377,9 @@ func (g *gen) opNI() int {
 	case g.r.Chance(1, 30):
 		return 4
 	case g.r.Chance(1, 15):
-		return drv.Pick(g.r, 2, 3)
+		if n := drv.Pick(g.r, 2, 3); n != g.c.Late || g.has[n] {
+			return n
+		}
 	}
 	return g.existingNI()
 }
@@ -568,6 +573,9 @@ func (g *gen) genGet() Step {
 	if g.r.Chance(1, 2) {
 		q = drv.Pick(g.r, getNIs[1], getNIs[3], getNIs[4])
 	}
+	if q.NI == "name" && q.Name == g.c.Late && !g.has[q.Name] {
+		q = getNIs[1]
+	}
 	q.AFT = getAFTs[g.r.Intn(len(getAFTs))]
 	return Step{K: "get", Get: &q}
 }
@@ -602,7 +610,23 @@ func genCase(r *drv.Rng) Case {
 		g.nh[n], g.nhg[n] = map[uint64]bool{}, map[uint64]bool{}
 	}
 	n := 8 + r.Intn(24)
+	if !g.has[3] && r.Chance(1, 2) {
+		c.Late = 3
+	}
 	for i := 0; i < n; i++ {
+		if c.Late != 0 && !g.has[c.Late] && i == n/2 {
+			// everything is read once, then the instance is created at run time; what is programmed into it afterwards
+			// must show up in every later Get over all instances
+			c.Steps = append(c.Steps, Step{K: "get", Get: &drv.GetSpec{NI: "all", AFT: "ALL"}}, Step{K: "addni", NI: c.Late})
+			g.has[c.Late] = true
+			e := g.genNH()
+			e.Key = 1
+			if e.Bad() || e.IP == nil {
+				e = Entry{T: "nh", Key: 1, IP: pstr(ipPool[0])}
+			}
+			g.nh[c.Late][1] = true
+			c.Steps = append(c.Steps, Step{K: "add", NI: c.Late, E: &e})
+		}
 		x := r.Intn(100)
 		// early steps build the lower layers so that later ones resolve
 		if i < 3 {
